@@ -203,6 +203,12 @@ class Recorder:
         L.Linter.lint_fix_parsed = classmethod(lint_fix_parsed)
         h = _LimitWatch(self)
         lg = logging.getLogger("sqlfluff.linter")
+        # the watcher needs WARNING records of this logger whatever level other harness code gave it
+        old = (lg.level, lg.disabled, logging.root.manager.disable)
+        lg.setLevel(logging.WARNING)
+        lg.disabled = False
+        if old[2] >= logging.WARNING:
+            logging.disable(logging.NOTSET)
         lg.addHandler(h)
 
         def undo():
@@ -210,6 +216,17 @@ class Recorder:
             L.apply_fixes = o_apply
             L.Linter.lint_fix_parsed = classmethod(o_lfp)
             lg.removeHandler(h)
+            lg.setLevel(old[0])
+            lg.disabled = old[1]
+            logging.disable(old[2])
+
+        # self-test of the only observation that is not a function boundary
+        self.limit_seen = False
+        L.linter_logger.warning("Loop limit on fixes reached [recorder self-test].")
+        if not self.limit_seen:
+            undo()
+            raise MachineryError("fix recorder: the loop-limit warning of sqlfluff.linter is not observable (logger silenced?)")
+        self.limit_seen = False
 
         self._undo.append(undo)
         return self
